@@ -62,6 +62,11 @@ func c06Cells(tier string) []Cell {
 			}
 		}
 
+		// a background build whose builder asks for another stale key, with its own or a derived (deadlined) context
+		for _, path := range []string{"nested", "nestedDerive"} {
+			cells = append(cells, Cell{ID: c06Cell{Front: front, Path: path, Caller: "none", Cancel: "never"}.id()})
+		}
+
 		// builds that fail
 		for _, path := range []string{"failA", "failSu", "failBg"} {
 			for _, caller := range []string{"none", "0", "10s", "1h", "-1s"} {
@@ -164,6 +169,53 @@ func c06WantChain(caller time.Duration, hasCell bool, calls []ttlCall) time.Dura
 	return cur
 }
 
+// c06Nested: the builder of key 0 (a background update) asks the same front-end for key 1 - with its own context, or with
+// one it derived from it under a deadline and cancels afterwards. Key 1 is stale too, so its update runs in the
+// background as well: neither build is cancelled or deadlined by whoever caused it, both see the caller's values.
+func c06Nested(cc c06Cell, env *Env) CellResult {
+	tag := "nested"
+	if cc.Path == "nestedDerive" {
+		tag = "nested-derive"
+	}
+
+	cfg := FCfg{Front: cc.Front, MS: true, FailC: "00", Script: "o", Init: "SS", Tags: []string{tag},
+		Threads: [][]GOp{{{Key: 0}}}}
+	front := frontNames[cc.Front]
+
+	return exploreF(cfg, env, vsched.Options{PreemptionBound: -1, EnvBound: 0, HBCache: true, Deadline: env.Deadline}, nil, func(h *fh, r *vsched.Result) []Violation {
+		var vs []Violation
+
+		bad := func(kind, detail string) {
+			vs = append(vs, Violation{Signature: fmt.Sprintf("C06 %s %s path=%s", front, kind, cc.Path), Detail: detail})
+		}
+
+		if r.Deadlock || r.Panic != nil {
+			bad("fatal", fmt.Sprintf("deadlock=%v panic=%v", r.Deadlock, r.Panic))
+			return vs
+		}
+
+		if h.nbuild[0] != 1 || h.nbuild[1] != 1 {
+			bad("nested-builds", fmt.Sprintf("builds per key %v, want one each", h.nbuild))
+		}
+
+		for _, e := range h.log {
+			if e.Kind != "build-start" && e.Kind != "build-end" {
+				continue
+			}
+
+			if e.Kind == "build-start" && e.Ctx.Planted != "planted" {
+				bad("ctx-values", fmt.Sprintf("builder of key %d does not see the caller's context value (got %v)", e.Key, e.Ctx.Planted))
+			}
+
+			if e.Ctx.Err != nil || (e.Kind == "build-start" && (!e.Ctx.DoneNil || e.Ctx.Deadline)) {
+				bad("bg-ctx", fmt.Sprintf("background build of key %d (%s): Err=%v Done==nil:%v deadline:%v; want detached from whoever caused it", e.Key, e.Kind, e.Ctx.Err, e.Ctx.DoneNil, e.Ctx.Deadline))
+			}
+		}
+
+		return vs
+	})
+}
+
 // c06SkipWaiter: a plain Get and a SkipRead Get on one stale key, all schedules: the SkipRead Get returns a built
 // value (its own build or the one it waited for), never the stale one.
 func c06SkipWaiter(cc c06Cell, env *Env) CellResult {
@@ -189,6 +241,10 @@ func c06SkipWaiter(cc c06Cell, env *Env) CellResult {
 func c06Run(c Cell, env *Env) CellResult {
 	var cc c06Cell
 	_ = json.Unmarshal([]byte(c.ID), &cc)
+
+	if strings.HasPrefix(cc.Path, "nested") {
+		return c06Nested(cc, env)
+	}
 
 	if strings.HasPrefix(cc.Path, "skipW") {
 		return c06SkipWaiter(cc, env)
@@ -502,7 +558,7 @@ func init() {
 	Register(&Prop{
 		ID: "C06", Title: "TTL and context travel through Failover as documented",
 		Cells: c06Cells, Run: c06Run,
-		Rule: "grid caller TTL {no cell, 0, 10s, 1h, -1s} x builder behaviour (every sequence of <=2 (quick: 73) / <=3 (thorough: 585) WithTTL(ctx,b,upd) calls, b in {0,5s,2h,-1s}, upd in {true,false}) x path {cold miss, sync update of a stale value, background update, waiter, cold miss and background update with NESTED builder scopes, SkipRead on a fresh entry; a SkipRead Get next to a plain Get on a stale key (sync / background update, SyncRead on / off); SkipRead on an absent / stale / too stale entry and with a failure cached for the key (uncancelled caller only); a build that FAILS on a cold miss / sync update / background update} " +
+		Rule: "grid caller TTL {no cell, 0, 10s, 1h, -1s} x builder behaviour (every sequence of <=2 (quick: 73) / <=3 (thorough: 585) WithTTL(ctx,b,upd) calls, b in {0,5s,2h,-1s}, upd in {true,false}) x path {cold miss, sync update of a stale value, background update, waiter, cold miss and background update with NESTED builder scopes, SkipRead on a fresh entry; a SkipRead Get next to a plain Get on a stale key (sync / background update, SyncRead on / off); SkipRead on an absent / stale / too stale entry and with a failure cached for the key (uncancelled caller only); a build that FAILS on a cold miss / sync update / background update; a background build whose builder asks the front-end for another stale key with its own or a derived, deadlined context} " +
 			"x caller context {never cancelled, cancelled before, cancelled after, carrying a deadline} x 3 front-ends; each case under the scheduler with all schedules (unbounded, HB cached); a recording backend wrapper notes TTL(ctx) of every Write, the builder notes Err/Done/Deadline/Value of its context",
 		Assumptions: []string{
 			"'smallest non-zero' is taken over signed durations (a negative TTL is smaller than any positive one), as the implementation's comparison does",
